@@ -1,6 +1,8 @@
 (* Driver for the extracted C15 model.
    ORD n {israndom nchildren children}^n  ni insts  np params  nr {nb bindings}^nr  nb behs
-     -> "<dependency tuple> | <random nodes in the order sampleAll draws them>"            *)
+     -> "<dependency tuple> | <random nodes in the order sampleAll draws them>"
+   RES n {np props nr required}^n
+     -> the properties in the order specifier resolution evaluates them (dependency sets sorted)   *)
 open Model
 open Zio
 
@@ -27,6 +29,10 @@ let handle (line : string) : string =
       let deps = deps_of gather_ordered p in
       let s = sample_all g p.p_ev deps { stream = (fun _ -> Z0); cursor = O } in
       ids deps ^ " | " ^ ids s.ss_log
+  | "RES" ->
+      let n = next_int () in
+      let specs = List.init n (fun _ -> let ps = nat_list () in let rq = nat_list () in { s_props = ps; s_req = rq }) in
+      ids (prop_order (present_sorted (fun l -> l)) specs)
   | s -> failwith ("cmd " ^ s)
 
 let () =
